@@ -271,6 +271,17 @@ func genC17(tier, out string, sum *Summary) {
 					pairs = append(pairs, [2]*R{slc(x, ip(0), nil, nil, r), pipe(slc(x, ip(0), nil, nil, cur()), proj(PList, cur(), r))})
 				}
 				pairs = append(pairs, [2]*R{proj(PList, x, r), proj(PList, call("map", ar(r), av(x)), cur())})
+				// the same under a binding the right-hand side refers to
+				ro := sub(cur(), mlist(r, vr("$o")))
+				if r.K == KCurrent || (r.K == KSub && r.L.K == KCurrent) {
+					ro = sub(cur(), mlist(cur(), vr("$o")))
+				}
+				bind := func(e *R) *R { return let([]KV{{"$o", fld("b")}}, e) }
+				if strict && k%3 == 0 {
+					pairs = append(pairs, [2]*R{bind(proj(PList, x, ro)), bind(proj(PList, call("map", ar(ro), av(x)), cur()))},
+						[2]*R{bind(proj(PList, x, ro)), bind(pipe(proj(PList, x, cur()), proj(PList, cur(), ro)))},
+						[2]*R{bind(filt(x, cur(), ro)), bind(pipe(filt(x, cur(), cur()), proj(PList, cur(), ro)))})
+				}
 				for _, pr := range pairs {
 					per := 2
 					if tier == "thorough" {
@@ -282,7 +293,11 @@ func genC17(tier, out string, sum *Summary) {
 						if pr[0].PK == PSlice && typeOf(x, doc) == "string" {
 							continue // a slice of a string is a string, not a projection
 						}
-						if pr[1].K == KProj && pr[1].L != nil && pr[1].L.K == KCall && typeOf(x, doc) != "array" {
+						inner := pr[1]
+						if inner.K == KLet {
+							inner = inner.Rt
+						}
+						if inner.K == KProj && inner.L != nil && inner.L.K == KCall && typeOf(x, doc) != "array" {
 							continue // map() demands an array
 						}
 						c.same("small-scope", pr[0], pr[1], doc)
